@@ -333,20 +333,9 @@ fn search(a: &Args) {
     std::fs::write(&a.out, out).expect("write search output");
 }
 
-/// rough tag of the recorded OPEN finding classes for a failing case (search mode only; the
-/// authoritative classification is known_class in coq/Corr/C14.v / Model/PredClass.v).
-/// 13: a BETWEEN bound that is arithmetic over NULL on some row.
-fn rough_class(_shape: Shape, t: &Table, e: &Expr, _out: &QOut) -> u32 {
-    let mut k = 0u32;
-    e.walk(&mut |x| {
-        if let Expr::Between(_, _, lo, hi) = x {
-            for b in [lo, hi] {
-                if matches!(**b, Expr::Arith(..)) && t.rows.iter().any(|r| matches!(eval(b, r), Some(Val::Null))) { k = 13; }
-            }
-        }
-    });
-    k
-}
+/// tag of the recorded OPEN finding classes for a failing case (search mode only; the
+/// authoritative classification is known_class in coq/Corr/C14.v).  No class is open.
+fn rough_class(_shape: Shape, _t: &Table, _e: &Expr, _out: &QOut) -> u32 { 0 }
 
 // ------------------------------------------------------------------ debug helper
 fn show(v: &OwnedValue) -> String {
